@@ -19,6 +19,10 @@ weight of this check is the HISTORY-DRIVEN tie (DESIGN §5-C13):
 (c) invented uuids are never shared between containers / calls of one process nor between
     objects of one output; identifiers that are not uuid4-shaped must be given ones, verbatim;
     exported sheets of a flow file carry the file's own node/object ids;
+(c') REPEATED-STATE stream: the host process puts what it controls into a state it was in before (random.seed(k) with
+    the same k, random.setstate(saved), clocks frozen freezegun-style, a fixed os.getpid()) and compiles again, the same or
+    another workbook: the invented uuids of any two runs are disjoint, in one process and between processes started the
+    same way (a twin process under the same PYTHONHASHSEED, the other hash seeds, the fresh process);
 (d) per kept container: every render returns the same document; to_rows is repeatable;
     to_rows leaves no trace in render; render leaves no trace in to_rows other than
     completing absent identifiers (reported as its own finding class);
@@ -444,6 +448,8 @@ class HistGen:
     def op(self, ops, inputs, observed=False):
         rng = self.rng
         keeps = [o for o in ops if o["op"] in ("parse_keep", "load_keep")]
+        if not observed and rng.random() < 0.08:
+            return host_op_random(rng)         # the host process does something of its own between two calls
         r = rng.random()
         if keeps and r < 0.34:
             t = rng.choice(keeps)
@@ -490,6 +496,98 @@ class HistGen:
         self.count(f"len:{n}")
         self.count("observed:" + ops[-1]["op"])
         return {"ops": ops, "inputs": inputs}
+
+
+HOST_OPS = ("seed_rng", "rng_restore", "freeze_time", "thaw_time", "fix_pid")
+RNG_SEEDS = [0, 1, 42, 2024, 20240101, 2 ** 32 + 5, "pytest-randomly"]
+INSTANTS = [0.0, 1700000000.0, 1700000000.123456, 4102444800.5]
+
+
+def host_text(o):
+    return {"seed_rng": lambda: f"random.seed({o['k']!r})", "rng_restore": lambda: "random.setstate(state at process start)",
+            "freeze_time": lambda: f"clocks frozen at {o['t']}", "thaw_time": lambda: "clocks thawed",
+            "fix_pid": lambda: f"os.getpid() fixed to {o['pid']}"}[o["op"]]()
+
+
+def host_op_random(rng):
+    r = rng.random()
+    if r < 0.5:
+        return {"op": "seed_rng", "k": rng.choice(RNG_SEEDS)}
+    if r < 0.65:
+        return {"op": "rng_restore"}
+    if r < 0.85:
+        return {"op": "freeze_time", "t": rng.choice(INSTANTS)}
+    if r < 0.92:
+        return {"op": "thaw_time"}
+    return {"op": "fix_pid", "pid": rng.choice([1, 7, 4242])}
+
+
+def repeat_history(rng, gen, rstats):
+    """one case of the REPEATED-STATE stream: [recipe; compilation] two or three times, the recipe being host operations that put
+    process state the caller controls into the SAME state each time (random.seed(k), random.setstate, frozen clocks, fixed pid),
+    the compilation create_flows or parse_all + render (also from_dict + render of a file whose references lack ids) of the same
+    or of another workbook, other calls (failing ones too) in between.  A quarter of the cases re-seed with ANOTHER value
+    (control).  The last compilation is the observed call."""
+    def count(k):
+        rstats[k] = rstats.get(k, 0) + 1
+
+    inputs, ops = {}, []
+    n_rec = rng.choice([1, 1, 2, 3])
+    recipe = []
+    while len(recipe) < n_rec:
+        o = host_op_random(rng)
+        if o["op"] != "thaw_time" and o["op"] not in [p["op"] for p in recipe]:
+            recipe.append(o)
+    if not any(o["op"] in ("seed_rng", "rng_restore") for o in recipe) and rng.random() < 0.7:
+        recipe.insert(0, {"op": "seed_rng", "k": rng.choice(RNG_SEEDS)})
+    count("recipe:" + "+".join(sorted(o["op"] for o in recipe)))
+    rounds = rng.choice([2, 2, 3])
+    kinds = ["model_ok", "model_ok", "rich", "ex1"]
+    first = gen.new_input(inputs, rng.choice(kinds))
+    for r in range(rounds):
+        rec = [dict(o) for o in recipe]
+        if r > 0 and rng.random() < 0.25:
+            for o in rec:
+                if o["op"] == "seed_rng":
+                    o["k"] = rng.choice([k for k in RNG_SEEDS if k != o["k"]])
+            count("round:other-seed")
+        else:
+            count("round:same-state")
+        ops += rec
+        if r == 0 or rng.random() < 0.5:
+            wb = first
+            count("workbook:same" if r else "workbook:first")
+        else:
+            wb = gen.new_input(inputs, rng.choice(kinds))
+            count("workbook:other")
+        ex1 = inputs[wb]["kind"] == "repo"
+        c = rng.random()
+        if c < 0.6:
+            o = {"op": "create_flows", "wbs": [wb], "tags": None if ex1 else rng.choice(TAG_FILTERS[:3]), "out": rng.random() < 0.2}
+            if ex1:
+                o["data_models"] = EX1_MODELS
+            ops.append(o)
+            count("compile:create_flows")
+        else:
+            o = {"op": "parse_keep", "wbs": [wb]}
+            if ex1:
+                o["data_models"] = EX1_MODELS
+            ops.append(o)
+            ops.append({"op": "render", "target": ("rel", -1)})
+            count("compile:parse_all+render")
+        if r < rounds - 1:
+            for _ in range(rng.choice([0, 0, 1, 2])):
+                n = gen.op([], inputs)          # (no calls on kept containers here)
+                ops.append(n)
+                count("between:" + n["op"])
+            if rng.random() < 0.2:
+                ops.append({"op": "thaw_time"})
+    for i, o in enumerate(ops):
+        o["id"] = i
+        if isinstance(o.get("target"), tuple):
+            o["target"] = i + o["target"][1]
+    count(f"len:{len(ops)}")
+    return {"ops": ops, "inputs": inputs, "stream": "repeat"}
 
 
 def list_history(rng, lg, ostats):
@@ -551,10 +649,12 @@ def fresh_slice(ops):
     """the observed (last) call with only what it needs: the call that built its container and,
     for to_rows, one render if the history rendered that container before"""
     last = ops[-1]
+    # what the host process did to its own state is part of "started the same way": kept, in place
+    host = [o for o in ops[:-1] if o["op"] in HOST_OPS]
     if last["op"] not in ("render", "to_rows"):
-        return [dict(last, same_as=None)] if last.get("same_as") is not None else [last]
+        return host + ([dict(last, same_as=None)] if last.get("same_as") is not None else [last])
     keep = next(o for o in ops if o["id"] == last["target"])
-    out = [keep]
+    out = [o for o in ops[:-1] if o is keep or o["op"] in HOST_OPS]
     if last["op"] == "to_rows" and any(o["op"] == "render" and o["target"] == last["target"] for o in ops[:-1]):
         out.append({"op": "render", "target": last["target"], "id": -1})
     return out + [last]
@@ -637,8 +737,15 @@ def def_sites(doc):
 
 
 # ================================================================== the oracle, from the property text
-def judge(hist, runs, fresh, given, model_ids):
-    """runs: {seed: worker result}; fresh: worker result of fresh_slice under the first seed.
+def host_before(ops, k):
+    """what the host process did to its own state before call k (for the messages)"""
+    h = [host_text(o) for o in ops[:k] if o["op"] in HOST_OPS]
+    return (" [host process before: " + "; ".join(h) + "]") if h else ""
+
+
+def judge(hist, runs, fresh, given, model_ids, twin=None):
+    """runs: {seed: worker result}; fresh: worker result of fresh_slice under the first seed; twin: the whole history once
+    more in another process started exactly like the first (same PYTHONHASHSEED).
     -> list of (key, summary)"""
     ops = hist["ops"]
     bad = []
@@ -699,11 +806,18 @@ def judge(hist, runs, fresh, given, model_ids):
     procs = [(f"PYTHONHASHSEED={s}", set().union(*[set(invented_in(t, given)) for t in texts[s]])) for s in seeds]
     if fresh is not None and fresh.get("results"):
         procs.append(("fresh process", set().union(*[set(invented_in(out_text(x), given)) for x in fresh["results"]])))
+    if twin is not None:
+        if twin.get("crashed") is not None or len(twin["results"]) != len(ops):
+            bad.append(("worker-crashed", f"twin process: {str(twin.get('crashed'))[-400:]}"))
+        else:
+            procs.insert(1, (f"a second process started the same way (PYTHONHASHSEED={seeds[0]})",
+                             set().union(*[set(invented_in(out_text(x), given)) for x in twin["results"]])))
     for i in range(len(procs)):
         for j in range(i + 1, len(procs)):
             both = procs[i][1] & procs[j][1]
             if both:
-                bad.append(("invented-uuid-reused", f"uuid {sorted(both)[0]} was invented in two different processes ({procs[i][0]} and {procs[j][0]})"))
+                bad.append(("invented-uuid-repeats-across-processes", f"uuid {sorted(both)[0]} ({len(both)} in all) was invented in two different processes "
+                            f"({procs[i][0]} and {procs[j][0]})" + host_before(ops, len(ops))))
                 break
         else:
             continue
@@ -716,7 +830,8 @@ def judge(hist, runs, fresh, given, model_ids):
         own = ops[k].get("target", ops[k]["id"])
         for u in invented_in(texts[seeds[0]][k], given):
             if owner.setdefault(u, own) != own:
-                bad.append(("invented-uuid-reused", f"uuid {u} invented for call/container {owner[u]} appears again in call {k} ({ops[k]['op']}) on {own}"))
+                bad.append(("invented-uuid-reused", f"uuid {u} invented for call/container {owner[u]} appears again in call {k} ({ops[k]['op']}) on {own}"
+                            + host_before(ops, k)))
                 break
         if ops[k]["op"] in ("create_flows", "render"):
             doc = res["out"]["value"]
@@ -924,8 +1039,9 @@ def correspond(ctx, hist, base, cstats):
             calls.append("(3 99)")
             kinds.append("absent")
         else:
+            # host operations (random.seed, frozen clocks, ...) are COpaque true = Io.Hidden.CHost: the model's state has nothing they could reset
             calls.append(f"(5 {1 if res['status'] == 'ok' else 0})")
-            kinds.append("opaque")
+            kinds.append("host" if o["op"] in HOST_OPS else "opaque")
     ans = ctx.model.ask(f"(113 1 {sx_list(calls)})")
     tr = parse_sexp(ans)
     case = dict(ops=ops, inputs=inputs)
@@ -945,7 +1061,7 @@ def correspond(ctx, hist, base, cstats):
         if [min(mh[0], 1), mh[1], mh[3]] != ih:
             ctx.disagree("C13 hidden state after a call (stack depth>0, defaults pristine, kept containers)", dict(case, call=k), [mh[0], mh[1], mh[3]], ih)
         m = model_outcome(mo)
-        if kind == "opaque":
+        if kind in ("opaque", "host"):
             continue
         if res["status"] in ("critical", "raise"):
             i = ["fail", res["status"]]
@@ -1036,12 +1152,16 @@ class Lab:
         seeds = seeds or self.seeds
         futs = {s: self.pool.submit(run_worker, hist["ops"], paths, root, s, f"s{s}") for s in seeds}
         fr = self.pool.submit(run_worker, fresh_slice(hist["ops"]), paths, root, seeds[0], "fresh")
-        return dict(root=root, futs=futs, fresh=fr, given=given, hist=hist)
+        tw = None
+        if any(o["op"] in HOST_OPS for o in hist["ops"]):
+            tw = self.pool.submit(run_worker, hist["ops"], paths, root, seeds[0], "twin")
+        return dict(root=root, futs=futs, fresh=fr, twin=tw, given=given, hist=hist)
 
     def collect(self, job):
         try:
             runs = {s: f.result() for s, f in job["futs"].items()}
             fresh = job["fresh"].result()
+            job["twin_result"] = job["twin"].result() if job.get("twin") is not None else None
         finally:
             shutil.rmtree(job["root"], ignore_errors=True)
         return runs, fresh
@@ -1049,7 +1169,7 @@ class Lab:
     def evaluate(self, hist, seeds=None):
         job = self.submit(hist, seeds)
         runs, fresh = self.collect(job)
-        return judge(hist, runs, fresh, job["given"], None), runs
+        return judge(hist, runs, fresh, job["given"], None, job["twin_result"]), runs
 
     def close(self):
         self.pool.shutdown(wait=True)
@@ -1207,6 +1327,12 @@ def run(ctx):
     n_list = (60 if thorough else 20) * ctx.scale
     lists = [list_history(ctx.rng, lg, lstats["shape"]) for _ in range(n_list)]
     lstats["cases"] = len(lists)
+    # the repeated-state stream: the host process re-seeds / restores / freezes what it controls and compiles again
+    rstats = ctx.stats.setdefault("repeated_state_stream", {"cases": 0, "shape": {}, "outcomes": {}})
+    n_rep = (48 if thorough else 16) * ctx.scale
+    reps = [repeat_history(ctx.rng, gen, rstats["shape"]) for _ in range(n_rep)]
+    rstats["cases"] = len(reps)
+    lists = [x for pair in zip(reps, lists) for x in pair] + reps[len(lists):] + lists[len(reps):]
     # interleaved, so that a time limit or an early exit does not starve one stream
     step = max(1, len(hists) // max(1, len(lists)))
     merged = []
@@ -1225,9 +1351,9 @@ def run(ctx):
         for job in jobs:
             hist = job["hist"]
             runs, fresh = lab.collect(job)
-            bad = judge(hist, runs, fresh, job["given"], None)
+            bad = judge(hist, runs, fresh, job["given"], None, job["twin_result"])
             ostats["histories"] += 1
-            ostats["worker_processes"] += len(runs) + 1
+            ostats["worker_processes"] += len(runs) + 1 + (job["twin_result"] is not None)
             base = runs[seeds[0]].get("results", [])
             for s in runs:
                 for res in runs[s].get("results", []):
@@ -1238,11 +1364,16 @@ def run(ctx):
                 if hist.get("stream") == "lists":
                     k2 = res["op"] + ":" + res["status"] + (":" + res["etype"] if res["status"] not in ("ok", "skipped") else "")
                     lstats["outcomes"][k2] = lstats["outcomes"].get(k2, 0) + 1
+                if hist.get("stream") == "repeat":
+                    k2 = res["op"] + ":" + res["status"] + (":" + res["etype"] if res["status"] not in ("ok", "skipped") else "")
+                    rstats["outcomes"][k2] = rstats["outcomes"].get(k2, 0) + 1
             wk = "worker_seconds:" + hist.get("stream", "histories")
             ostats[wk] = round(ostats.get(wk, 0) + sum(r.get("wall", 0) for r in list(runs.values()) + [fresh]), 1)
             ostats["fresh_comparisons"] += 1
             ostats["seed_comparisons"] += (len(runs) - 1) * len(base)
-            v.coverage["evaluations"] += len(base) * len(runs) + 1
+            v.coverage["evaluations"] += len(base) * (len(runs) + (job["twin_result"] is not None)) + 1
+            if job["twin_result"] is not None:
+                ostats["twin_processes"] = ostats.get("twin_processes", 0) + 1
             if len({r["status"] for r in base}) > 1 and len({o["op"] for o in hist["ops"]}) > 1:
                 nontrivial.add(json.dumps([[o["op"], r["status"]] for o, r in zip(hist["ops"], base)]))
             if inv_live is None and runs[seeds[0]].get("inventory") is not None:
@@ -1296,9 +1427,17 @@ def run(ctx):
         "near-equal IDs, concat / sort with ties / filter, trigger keywords and groups, campaigns) filled from tiny pools so that repeated and "
         "near-duplicate entries are the rule (distribution: stats.hash_order_stream.features); calls: create_flows, save_data_sheets, "
         "convert_to_json, parse_all + to_rows, flows_to_sheets and from_dict + render of the compiled document thickened with repeated entries, "
-        "and the first workbook as a one-file JSON workbook with its sheets in two orders")
+        "and the first workbook as a one-file JSON workbook with its sheets in two orders.  REPEATED-STATE stream (16 cases quick / 48 thorough): "
+        "[host operations; compilation] two or three times in one process, the host operations (random.seed(k), random.setstate(state at start), "
+        "clocks frozen, os.getpid fixed) bringing the process into the same state each time (a quarter re-seed with another value), the compilation "
+        "create_flows or parse_all + render of the same or another workbook, other calls in between; these histories (and every ordinary history "
+        "that contains a host operation: ~8 % of the calls) run once more in a twin process started the same way; the fresh process replays the "
+        "host operations before the observed call; invented uuids must be disjoint between any two calls/containers and any two processes "
+        "(distribution: stats.repeated_state_stream)")
     v.coverage["samples"] = [dict(ops=[(o["op"], o.get("tags"), o.get("target")) for o in h["ops"]]) for h in (hists[0], hists[1], hists[len(hists) // 2], hists[-1])]
     v.coverage["samples"].append(dict(stream="lists", ops=[(o["op"], o.get("fmt", "csv"), o.get("tags")) for o in next((h for h in hists if h.get("stream") == "lists"), hists[0])["ops"]]))
+    v.coverage["samples"].append(dict(stream="repeat", ops=[(o["op"], o.get("k", o.get("t", o.get("pid"))), o.get("wbs"), o.get("target")) for o in
+                                                            next((h for h in hists if h.get("stream") == "repeat"), hists[0])["ops"]]))
     v.coverage["hashseeds"] = seeds
     v.assumptions += [
         "uuid4() never returns a value it returned before (the only thing the model and the oracle use of it)",
